@@ -86,6 +86,14 @@ def run_cases(cases, model=True, extra_requests=None, parse_model=True):
                     rq.append(f"lr {partial} {hx(inp)} {algo.split('@')[1]} #{mat}")
                 else:
                     rq.append(f"{'glr' if algo == 'GLR' else 'lr'} {partial} {hx(inp)} #{mat}")
+            c.nodup_idx = []
+            if getattr(c, "want_nodup", False):
+                # per-input certificate of C03_engine_no_duplicates_from_poss_facts on the model's result graph
+                for k in c.model_idx:
+                    algo, partial, inp, _m = c.inputs[k]
+                    if algo == "GLR" and len(inp) <= 40:
+                        c.nodup_idx.append(k)
+                        rq.append(f"glr nodup {partial} {hx(inp)} #{c.matrices[k]}")
             reqs.append(rq)
             req_cases.append(c)
     if model and reqs:
@@ -96,6 +104,7 @@ def run_cases(cases, model=True, extra_requests=None, parse_model=True):
             c.model = ["skipped"] * len(c.inputs)
             for k, a in zip(c.model_idx, o[1 + c.n_extra:]):
                 c.model[k] = a
+            c.nodup = dict(zip(c.nodup_idx, o[1 + c.n_extra + len(c.model_idx):]))
     return cases
 
 
